@@ -122,11 +122,12 @@ def main():
         return 2
     seed = int(os.environ.get("VERIF_SEED", "0") or 0)
     t0 = time.time()
-    facts = Facts(wx.extract(a.src, "dev"))
+    known = registry.known_functions()
+    facts = Facts(wx.extract(a.src, "dev"), known=known)
     ctx, rids = run_property(prop, facts, a.tier)
     configs = ["dev"]
     if a.tier == "thorough":
-        f2 = Facts(wx.extract(a.src, "release", all_targets=False))
+        f2 = Facts(wx.extract(a.src, "release", all_targets=False), known=known)
         ctx2, _ = run_property(prop, f2, a.tier)
         configs.append("release")
         have = {o.key for o in ctx.obs if not o.ok}
